@@ -445,6 +445,12 @@ func (w *World) SizedOracle(s *Spec, goType string, exp []Exp, what string) (out
 	if T == nil {
 		return exp, []Issue{{Rule: "A-SIZED", Construct: "integer property without an integer Go type", Msg: fmt.Sprintf("%s: the Go type is %s", what, goType)}}, false
 	}
+	if T.name == "int" && len(exp) > 0 && s.Has("minimum") && s.Has("maximum") {
+		// with the flag an integer bounded on both sides gets the narrowest intN/uintN that holds its range; the platform-sized int
+		// is what the generator picks WITHOUT the flag, so the flag was not in effect when this integer was generated
+		return exp, []Issue{{Rule: "A-SIZED", Construct: "bounded integer left as plain int under --min-sized-ints",
+			Msg: fmt.Sprintf("%s: the flag is set and the integer is bounded on both sides, yet its Go type is the unsized int: the option was not in effect when this integer was generated (not the narrowest type)", what)}}, false
+	}
 	// order facts between an exclusive and an inclusive bound must agree with the cells
 	for _, pr := range [][2]string{{"exclusiveMinimum", "minimum"}, {"exclusiveMaximum", "maximum"}} {
 		a, b := s.Atoms[pr[0]], s.Atoms[pr[1]]
